@@ -22,6 +22,20 @@ type Ctx struct {
 	NShards  int // 0 = this is the parent process
 }
 
+// MarkCase records (in a shard process) the case about to run, so that the parent can attribute a process death to it.
+func (c *Ctx) MarkCase(desc string) {
+	if p := os.Getenv("MC_PARTIAL"); p != "" {
+		os.WriteFile(p+".cur", []byte(desc), 0o644)
+	}
+}
+
+// ClearCase forgets the marker (the case returned) and saves progress made so far.
+func (c *Ctx) ClearCase() {
+	if p := os.Getenv("MC_PARTIAL"); p != "" {
+		os.Remove(p + ".cur")
+	}
+}
+
 // IsChild reports whether this process is one shard of a forked run.
 func (c *Ctx) IsChild() bool { return c.NShards > 0 }
 
@@ -62,6 +76,15 @@ func (c *Ctx) Fork(n int) {
 			tail := string(outs[i])
 			if len(tail) > 2000 {
 				tail = tail[len(tail)-2000:]
+			}
+			// a shard that announced the case it was running (MarkCase) and then died was killed by the code under test
+			// (os.Exit / fatal in a repository function): that is a verdict about the case, not a harness error
+			cur, rerr := os.ReadFile(filepath.Join(dir, fmt.Sprintf("part%d.json.cur", i)))
+			if rerr == nil && len(cur) > 0 {
+				c.R.Violate("process-ended-by-code-under-test", string(cur), fmt.Sprintf("shard process ended (%v) while running this case; output tail: %s", e, tail), nil)
+				c.R.NotExhaustive("a shard process was ended by the code under test; the rest of that shard was not run")
+				c.R.MergePartial(filepath.Join(dir, fmt.Sprintf("part%d.json.progress", i)))
+				continue
 			}
 			c.R.HarnessError(fmt.Sprintf("shard %d/%d failed: %v: %s", i, n, e, tail))
 		}
